@@ -344,6 +344,7 @@ func c18Unit(v *verifOut) {
 	// validity of twin placements: all size vectors of n<=6,k<=3 against all placements of <=2 pairs
 	// (plus out-of-range partition numbers)
 	sv := v.Stream("valid", "valid_mismatches", 40)
+	modified := 0
 	for n := 1; n <= 6; n++ {
 		for k := 1; k <= 3; k++ {
 			for _, sz := range genPartitionSizes(uint8(n), uint8(k), 1) {
@@ -362,7 +363,17 @@ func c18Unit(v *verifOut) {
 					}
 				}
 				for _, ta := range tas {
+					szBefore := append([]uint8(nil), sz...)
 					got := isValidTwinAssignment(ta, sz)
+					if !reflect.DeepEqual(szBefore, sz) {
+						modified++
+						if modified == 1 {
+							// diagnostic only: whether this matters depends on what the caller passes in; the
+							// consequence for the property (a node in no partition) is judged on the options
+							v.Note(fmt.Sprintf("isValidTwinAssignment(%v, %v) leaves the caller's size vector as %v", ta, szBefore, sz))
+						}
+						copy(sz, szBefore)
+					}
 					// oracle: demand per partition <= size, all partition numbers in range
 					need := make([]int, len(sz))
 					want := true
@@ -431,10 +442,28 @@ func c18Unit(v *verifOut) {
 
 // ---- option list + well-formedness, for one (nodes, twins, partitions) ----
 
+var c18OrderNoted bool
+
 type c18Opts struct {
 	lp       []View
 	keyIdx   map[string]int
+	class    []int // class[i] = first option that is the same view as option i up to the order of the partitions
 	panicked bool
+}
+
+// c18ViewSetKey identifies a view irrespective of the order of its partitions (the order has no
+// meaning for the network: two nodes can talk iff some partition contains both).
+func c18ViewSetKey(v View) string {
+	parts := make([]string, len(v.Partitions))
+	for i, p := range v.Partitions {
+		var sb strings.Builder
+		for _, id := range c18SortedPart(p) {
+			fmt.Fprintf(&sb, "%d.%d,", id.ReplicaID, id.TwinID)
+		}
+		parts[i] = sb.String()
+	}
+	sort.Strings(parts)
+	return fmt.Sprintf("L%d|%s", v.Leader, strings.Join(parts, "|"))
 }
 
 func c18Options(v *verifOut, st c18Set, inBound bool) c18Opts {
@@ -458,6 +487,7 @@ func c18Options(v *verifOut, st c18Set, inBound bool) c18Opts {
 	o := c18Opts{lp: lp, keyIdx: map[string]int{}}
 	exp := c18ExpectedNodes(st.Nodes, st.Twins)
 	vs := make([]string, len(lp))
+	setIdx := map[string]int{}
 	for i, opt := range lp {
 		vs[i] = c18GView(opt)
 		key := c18ViewKey(opt)
@@ -465,6 +495,21 @@ func c18Options(v *verifOut, st c18Set, inBound bool) c18Opts {
 			v.Oracle(false, "options:repeated", "the same (leader, partitions) option occurs twice", map[string]any{"settings": meta, "option": key})
 		} else {
 			o.keyIdx[key] = i
+		}
+		setKey := c18ViewSetKey(opt)
+		if first, dup := setIdx[setKey]; dup {
+			o.class = append(o.class, first)
+			if c18ViewKey(lp[first]) != key {
+				// observation only ("without repetition" is about scenario values): counted, not an oracle failure
+				v.Count("note_options_same_up_to_partition_order")
+				if !c18OrderNoted {
+					c18OrderNoted = true
+					v.Note(fmt.Sprintf("observation (not a finding): settings %v: option %q is the same view as %q with the partitions in a different order", meta, key, c18ViewKey(lp[first])))
+				}
+			}
+		} else {
+			setIdx[setKey] = i
+			o.class = append(o.class, i)
 		}
 		// every node, both twins included, in exactly one partition; nothing else; k partitions
 		cnt := map[NodeID]int{}
@@ -602,6 +647,24 @@ func c18Drain(v *verifOut, st c18Set, o c18Opts, seed *int64, capN int, doJSON b
 	}
 	v.Oracle(okPanic, "generator.next:panic", fmt.Sprintf("NextScenario panics (call %d of %d, %d announced)", firstBad+1, calls, announced), meta2(tag))
 	v.Oracle(okDistinct, "generator.next:repeats-a-scenario", "the generator yields the same scenario twice", meta2(tag))
+	okClass := true
+	seenClass := map[string]bool{}
+	for _, e := range evs {
+		if e.kind == c18Scen && !e.bad {
+			var sb strings.Builder
+			for _, vw := range e.scen {
+				fmt.Fprintf(&sb, "%d,", o.class[o.keyIdx[c18ViewKey(vw)]])
+			}
+			if seenClass[sb.String()] {
+				okClass = false
+			}
+			seenClass[sb.String()] = true
+		}
+	}
+	if okDistinct && !okClass {
+		// observation only, see c18Options
+		v.Count("note_drains_with_scenarios_same_up_to_partition_order")
+	}
 	v.Oracle(okOpt, "generator.next:scenario-not-from-options", "a yielded scenario is not a list of `views` generated options", meta2(tag))
 	v.Oracle(okRem, "generator.remaining:not-counting-down-by-one", "Remaining() before a call is not announced minus scenarios yielded so far", meta2(tag))
 	c18Retained(v, evs, o.keyIdx, n, views, meta2(tag))
@@ -724,6 +787,22 @@ func c18JSON(v *verifOut, st c18Set, settings Settings, evs []c18Event, o c18Opt
 			e.code = 1<<63 + e.code%1000
 		}
 		back = append(back, e)
+	}
+	// past the end the JSON source must say io.EOF (like the generator), not panic
+	for extra := 0; extra < 2; extra++ {
+		what := func() (w string) {
+			defer func() {
+				if r := recover(); r != nil {
+					w = fmt.Sprint("panic: ", r)
+				}
+			}()
+			if _, err := src.NextScenario(); err != io.EOF {
+				return fmt.Sprint("error = ", err)
+			}
+			return ""
+		}()
+		v.Oracle(what == "" && src.Remaining() == 0, "json.source:no-eof-past-the-end",
+			fmt.Sprintf("NextScenario after the last of %d scenarios of a JSON source: %s (Remaining() = %d)", len(scens), what, src.Remaining()), meta)
 	}
 	// scenarios handed out by the JSON source must stay as they were when more are read
 	okKeep := true
